@@ -616,6 +616,105 @@ Proof.
   split; [split; simpl; [reflexivity | rewrite Hs; exact Hd] | exact Hn].
 Qed.
 
+(* ------------------------------------------------------------------ align, reshape to given dims, binary operations *)
+From DA.Proofs Require Import C06_proofs.
+
+Lemma mapM_Forall {A B} (f : A -> res B) (P : A -> Prop) (Q : B -> Prop) l r :
+  (forall x y, P x -> f x = Ok y -> Q y) -> Forall P l -> mapM f l = Ok r -> Forall Q r.
+Proof.
+  intros Hf. revert r; induction l as [|x t IH]; intros r Hl H; simpl in H; [injection H as <-; constructor|].
+  inversion Hl as [|? ? Hx Ht]; subst.
+  destruct (f x) as [y|] eqn:E; simpl in H; [|discriminate]. destruct (mapM f t) as [r'|]; simpl in H; [|discriminate].
+  injection H as <-. constructor; [eapply Hf; eassumption | apply IH; [exact Ht | reflexivity]].
+Qed.
+
+Theorem align_one_wf axs a a' : WF a -> align_one axs a = Ok a' -> WF a'.
+Proof.
+  intros [Hw Hn] H. destruct (align_one_frame axs a a' Hw H) as [Hd [_ [Hw' _]]]. split; [exact Hw' | rewrite Hd; exact Hn].
+Qed.
+Theorem align_wf arrays j ax srt strict l : Forall WF arrays -> align arrays j ax srt strict = Ok l -> Forall WF l.
+Proof.
+  intros Hall H. unfold align in H. destruct (aligned_axes _ _ _ _ _) as [axs|]; simpl in H; [|discriminate].
+  eapply (mapM_Forall (align_one axs) WF WF); [|exact Hall | exact H]. intros x y Hx Hy. eapply align_one_wf; eassumption.
+Qed.
+
+Lemma squeeze_absent_wf ds newdims : forall a r, WF a -> squeeze_absent ds newdims a = Ok r -> WF r.
+Proof.
+  induction ds as [|d t IH]; intros a r Hw H; cbn [squeeze_absent] in H; [injection H as <-; exact Hw|].
+  destruct (mem_str d newdims); [eapply IH; eassumption|].
+  destruct (squeeze (Some (ByName d)) a) as [a'|] eqn:E; cbn [bind] in H; [|discriminate].
+  eapply IH; [eapply squeeze_wf; eassumption | exact H].
+Qed.
+Lemma add_missing_wf newdims : forall i a r, ~ In "" newdims -> WF a -> add_missing newdims i a = Ok r -> WF r.
+Proof.
+  induction newdims as [|d t IH]; intros i a r He Hw H; cbn [add_missing] in H; [injection H as <-; exact Hw|].
+  assert (He' : ~ In "" t) by (intros Hin; apply He; right; exact Hin).
+  destruct (mem_str d (dims a)); [eapply IH; eassumption|].
+  destruct (newaxis d None (Z.of_nat i) a) as [a'|] eqn:E; cbn [bind] in H; [|discriminate].
+  eapply IH; [exact He' | eapply newaxis_wf; [|exact Hw | exact E] | exact H].
+  intros ->. apply He. left. reflexivity.
+Qed.
+Theorem reshape_plain_wf newdims a r : ~ In "" newdims -> WF a -> reshape_plain newdims a = Ok r -> WF r.
+Proof.
+  intros He Hw H. unfold reshape_plain in H. destruct (list_eqb String.eqb newdims (dims a)); [injection H as <-; exact Hw|].
+  destruct (negb _); [discriminate|].
+  destruct (squeeze_absent (dims a) newdims a) as [o1|] eqn:E1; cbn [bind] in H; [|discriminate].
+  destruct (transpose _ o1) as [o2|] eqn:E2; cbn [bind] in H; [|discriminate].
+  destruct (add_missing newdims 0 o2) as [o3|] eqn:E3; cbn [bind] in H; [|discriminate].
+  destruct (list_eqb String.eqb (dims o3) newdims); [|discriminate]. injection H as <-.
+  eapply add_missing_wf; [exact He | | exact E3]. eapply transpose_wf; [|exact E2]. eapply squeeze_absent_wf; eassumption.
+Qed.
+
+Lemma get_dims_nonempty arrays : forall acc, ~ In "" acc -> Forall (fun a => ~ In "" (dims a)) arrays -> ~ In "" (get_dims arrays acc).
+Proof.
+  induction arrays as [|a t IH]; intros acc Ha Hall; simpl; [exact Ha|].
+  inversion Hall as [|? ? H1 Ht]; subst. apply IH; [|exact Ht].
+  clear -Ha H1. revert acc Ha. induction (dims a) as [|d ds IHd]; intros acc Ha; simpl; [exact Ha|].
+  apply IHd; [intros H; apply H1; right; exact H|].
+  destruct (mem_str d acc); [exact Ha|]. intros Hin. apply in_app_or in Hin. destruct Hin as [Hin|[E|[]]]; [contradiction|].
+  apply H1. left. exact E.
+Qed.
+Theorem align_dims_wf arrays l : Forall WF arrays -> align_dims arrays = Ok l -> Forall WF l.
+Proof.
+  intros Hall H. unfold align_dims in H. destruct arrays as [|a0 t]; [injection H as <-; constructor|].
+  destruct (forallb _ t); [injection H as <-; exact Hall|].
+  assert (Hne : ~ In "" (get_dims (a0 :: t) [])).
+  { apply get_dims_nonempty; [intros []|]. eapply Forall_impl; [|exact Hall]. intros a [_ [_ He]]. exact He. }
+  eapply (mapM_Forall _ WF WF); [|exact Hall | exact H]. intros x y Hx Hy. eapply reshape_plain_wf; eassumption.
+Qed.
+
+Lemma axis_of_name b d bx : axis_of b d = Some bx -> aname bx = d.
+Proof.
+  unfold axis_of. destruct (find_dim (dims b) d) as [i|] eqn:E; [|discriminate]. intros H.
+  unfold find_dim in E. apply index_of_some in E. destruct E as [Hi [Ei _]]. specialize (Ei EmptyString).
+  apply String.eqb_eq in Ei. apply nth_error_nth with (d := dax0) in H.
+  unfold dims in Ei, Hi. rewrite map_length in Hi. rewrite (nth_map_in aname (axes b) i dax0 EmptyString) in Ei by exact Hi.
+  rewrite H in Ei. symmetry. exact Ei.
+Qed.
+
+Theorem operation_wf o a b r : WF a -> WF b -> operation o a b = Ok r -> WF r.
+Proof.
+  intros Ha Hb H. unfold operation in H.
+  destruct (align [a; b] Outer None false false) as [al|] eqn:E1; simpl in H; [|discriminate].
+  assert (W1 : Forall WF al) by (eapply align_wf; [|exact E1]; constructor; [exact Ha | constructor; [exact Hb | constructor]]).
+  destruct (align_dims al) as [al2|] eqn:E2; simpl in H; [|discriminate].
+  assert (W2 : Forall WF al2) by (eapply align_dims_wf; eassumption).
+  destruct al2 as [|a' [|b' [|]]]; try discriminate.
+  inversion W2 as [|? ? Wa' W2']; subst. inversion W2' as [|? ? Wb' _]; subst.
+  destruct (mapM _ (axes a')) as [newaxes|] eqn:Em; simpl in H; [|discriminate].
+  destruct (np_binop o (vals a') (vals b')) as [v|] eqn:Ev; simpl in H; [|discriminate].
+  destruct (construct_ok _ _ _ _ H) as [-> Hsh].
+  assert (Hnames : map aname newaxes = map aname (axes a')).
+  { clear -Em. revert newaxes Em. induction (axes a') as [|ax t IH]; intros newaxes Em; simpl in Em; [injection Em as <-; reflexivity|].
+    destruct (alen ax =? 0); [discriminate|].
+    destruct (is_none_axis ax).
+    - destruct (axis_of b' (aname ax)) as [bx|] eqn:Eb; simpl in Em; [|discriminate].
+      destruct (mapM _ t) as [r'|] eqn:Et; simpl in Em; [|discriminate]. injection Em as <-. simpl. f_equal; [apply (axis_of_name _ _ _ Eb) | apply IH; reflexivity].
+    - simpl in Em. destruct (mapM _ t) as [r'|] eqn:Et; simpl in Em; [|discriminate]. injection Em as <-. simpl. f_equal. apply IH. reflexivity. }
+  destruct Wa' as [_ Hn]. split; [split; simpl; [exact Hsh | eapply np_binop_wf; exact Ev]|].
+  unfold dims in *. simpl. rewrite Hnames. exact Hn.
+Qed.
+
 (* ------------------------------------------------------------------ one step and whole programs *)
 Definition covered (a : darr) (o : op) : bool :=
   match o with
@@ -623,7 +722,7 @@ Definition covered (a : darr) (o : op) : bool :=
   | OReduce _ _ AxNone | OReduce _ _ (AxOne _) | OCum _ _ _ | ODiff _ _ _ _ | OArgExt _ _ | ODropna _ _
   | OGet _ _ _ | OPut _ _ _ _ | OScalarOp _ _ _ _ | ONdarrayOp _ _ | OReindex _ _ _ _ _ _ _ | OReindexAxisObj _ | OReindexLike _
   | OFillna _ _ | OSetna _ | OSetnaMask _ | OPutMask _ _ _ | OTakeAxisLabel _ _ | OTakeAxisPos _ _ | OCompressAxis _ _
-  | OSortAxis _ | OInterp _ _ _ _ _ | OInterpLike _ _ _ | OSetLabel _ _ _ _ | OSetDims _ | OIdentity => true
+  | OSortAxis _ | OSortAxisKey _ _ | OInterp _ _ _ _ _ | OInterpLike _ _ _ | OSetLabel _ _ _ _ | OSetDims _ | OIdentity => true
   | ONewaxis n _ _ => negb (String.eqb n "")
   | ORenameAxis r n => match axis_info a r with Ok i => negb (mem_str n (remove_nth i (dims a))) | Err _ => true end
   | _ => false
@@ -648,6 +747,7 @@ Proof.
   - destruct (op_scalar o c k reflected a) eqn:E; simpl in H; [|discriminate]. injection H as <-. eapply op_scalar_wf; eassumption.
   - destruct (op_ndarray o w a) eqn:E; simpl in H; [|discriminate]. injection H as <-. eapply op_ndarray_wf; eassumption.
   - destruct (sort_axis r a) eqn:E; simpl in H; [|discriminate]. injection H as <-. eapply sort_axis_wf; eassumption.
+  - destruct (axis_info a r) as [i|]; simpl in H; [|discriminate]. destruct (negb _); [discriminate|]. injection H as <-. apply take_axis_pos_wf. exact Hw.
   - destruct ax; try discriminate; unfold reduce_any in H; eapply reduce_wf; eassumption.
   - destruct (cumulative prod skipna r a) eqn:E; simpl in H; [|discriminate]. injection H as <-. eapply cumulative_wf; eassumption.
   - destruct (diff r sc keepaxis n a) eqn:E; simpl in H; [|discriminate]. injection H as <-. eapply diff_wf; eassumption.
